@@ -460,7 +460,7 @@ fn ref_conc(tokens: &[(u64, String)]) -> Vec<(Option<u64>, u64)> {
         i += 1;
         match ev {
             Ev::Call(kind, d) => {
-                let deadline = if kind == 'R' { Some(t + d) } else { None };
+                let deadline = if kind == 'R' { Some(t.saturating_add(d)) } else { None };
                 let mut now = t;
                 loop {
                     if let Some(e) = rq.pick(now) {
@@ -568,7 +568,9 @@ fn run_conc(sender: &[(u64, SOp)], receiver: &[(u64, ROp)]) -> (String, String, 
                 (format!("T@{}={}", t, show(r)), grid.unit_now())
             }
             ROp::RecvTimeout(d) => {
-                let r = q.receive_timeout(Duration::from_micros(d * UNIT_US));
+                // u64::MAX stands for Duration::MAX ("wait as long as needed")
+                let dur = if *d == u64::MAX { Duration::MAX } else { Duration::from_micros(d * UNIT_US) };
+                let r = q.receive_timeout(dur);
                 let tret = grid.unit_now();
                 (format!("R{}@{}={}/{}", d, t, show(r), tret), tret)
             }
@@ -678,7 +680,7 @@ fn gen_conc_script(rng: &mut Rng) -> (Vec<(u64, SOp)>, Vec<(u64, ROp)>) {
         if rng.chance(2, 5) {
             let op = match rng.below(6) {
                 0 => ROp::Try,
-                1..=3 => ROp::RecvTimeout(*rng.pick(&[2u64, 10, 18, 34])),
+                1..=3 => ROp::RecvTimeout(*rng.pick(&[2u64, 10, 18, 34, 34, u64::MAX])),
                 _ => ROp::Recv,
             };
             receiver.push((tick, op));
@@ -966,6 +968,8 @@ fn main() {
                 (vec![(0, SOp::Timer(1, 26)), (1, SOp::Timer(2, 2))], vec![(0, ROp::Recv), (2, ROp::Recv)]),
                 (vec![(2, SOp::Send(5))], vec![(0, ROp::RecvTimeout(34)), (3, ROp::RecvTimeout(10))]),
                 (vec![(2, SOp::Prio(5))], vec![(0, ROp::Recv)]),
+                (vec![(2, SOp::Send(5))], vec![(0, ROp::RecvTimeout(u64::MAX))]),
+                (vec![(0, SOp::Timer(1, 18)), (3, SOp::Timer(2, 2))], vec![(0, ROp::RecvTimeout(u64::MAX)), (1, ROp::RecvTimeout(u64::MAX))]),
             ];
             for _ in 0..n {
                 scripts.push(gen_conc_script(&mut rng));
